@@ -20,7 +20,8 @@ Record probe := PR {
   p_se : list (Z * N);               (* SortedIndex.entries in index order *)
   p_sr : list (N * Z);
   p_sd : nat;
-  p_txs : list txp
+  p_txs : list txp;
+  p_lb : bool; p_sb : bool           (* Get of the lookup / sorted index answers ErrIndexInvalid *)
 }.
 Record iout := IOut { io_e : N; io_qi : option rq; io_qs : option rq; io_g : option (list N); io_p : probe }.
 
@@ -29,7 +30,7 @@ Record iout := IOut { io_e : N; io_qi : option rq; io_qs : option rq; io_g : opt
 Record pdelta := PD {
   pd_rows : option (list row); pd_lf : option (list (Z * list N)); pd_lr : option (list (N * Z));
   pd_ld : nat; pd_se : option (list (Z * N)); pd_sr : option (list (N * Z)); pd_sd : nat;
-  pd_txs : list (nat * option txp)
+  pd_txs : list (nat * option txp); pd_lb : bool; pd_sb : bool
 }.
 Record ioutd := IOutD { iod_e : N; iod_qi : option rq; iod_qs : option rq; iod_g : option (list N);
                         iod_p : option pdelta }.
@@ -38,7 +39,8 @@ Definition find_tx (t : nat) (l : list txp) : txp :=
 Definition patch (prev : probe) (d : pdelta) : probe :=
   PR (default (p_rows prev) (pd_rows d)) (default (p_lf prev) (pd_lf d)) (default (p_lr prev) (pd_lr d))
      (pd_ld d) (default (p_se prev) (pd_se d)) (default (p_sr prev) (pd_sr d)) (pd_sd d)
-     (map (fun td => match td.2 with Some x => x | None => find_tx td.1 (p_txs prev) end) (pd_txs d)).
+     (map (fun td => match td.2 with Some x => x | None => find_tx td.1 (p_txs prev) end) (pd_txs d))
+     (pd_lb d) (pd_sb d).
 Fixpoint expand (prev : probe) (tr : list (op * ioutd)) : list (op * iout) :=
   match tr with
   | [] => []
@@ -65,10 +67,12 @@ Fixpoint sorted_by_val (l : list (Z * N)) : bool :=
   end.
 
 Definition gets_l (s : st) (t : option nat) (vs : list Z) : list (Z * list N) :=
+  if lbad s then [] else
   map (fun v => (v, sort_keys (match t with
                                 | None => l_get_committed true [v] (li s)
                                 | Some t => idx_get s t IA [v] end))) vs.
 Definition gets_s (s : st) (t : option nat) (vs : list Z) : list (Z * list N) :=
+  if sbad s then [] else
   map (fun v => (v, sort_keys (match t with
                                 | None => s_get_committed true [v] (si s)
                                 | Some t => idx_get s t IB [v] end))) vs.
@@ -84,7 +88,8 @@ Definition model_probe (s : st) (av bv : list Z) : probe :=
      (sortNk (map_to_list (s_rev (si s))))
      (size (sov s))
      (map (fun t => TxP t (sorted_rows (view s t)) (gets_l s (Some t) av) (gets_s s (Some t) bv))
-          (open_ids s)).
+          (open_ids s))
+     (lbad s) (sbad s).
 
 Definition txp_eqb (a b : txp) : bool :=
   bool_decide (tp_t a = tp_t b) && bool_decide (tp_rows a = tp_rows b) &&
@@ -100,13 +105,15 @@ Fixpoint list_eqb {A B} (e : A -> B -> bool) (a : list A) (b : list B) : bool :=
 Definition probe_eqb (m i : probe) : bool :=
   bool_decide (p_rows m = p_rows i) && bool_decide (p_lf m = p_lf i) &&
   bool_decide (p_lr m = p_lr i) && Nat.eqb (p_ld m) (p_ld i) &&
-  bool_decide (sort_ents (p_se m) = sort_ents (p_se i)) && sorted_by_val (p_se i) &&
+  bool_decide (sort_ents (p_se m) = sort_ents (p_se i)) &&
+  (p_sb i || sorted_by_val (p_se i)) &&      (* a failed populate leaves the slice unsorted *)
   bool_decide (p_sr m = p_sr i) && Nat.eqb (p_sd m) (p_sd i) &&
-  list_eqb txp_eqb (p_txs m) (p_txs i).
+  list_eqb txp_eqb (p_txs m) (p_txs i) &&
+  Bool.eqb (p_lb m) (p_lb i) && Bool.eqb (p_sb m) (p_sb i).
 
 (* adopt the implementation's order inside equal values (only called when probe_eqb holds) *)
 Definition resync (s : st) (i : probe) : st :=
-  St (rows s) (li s) (SIdx (p_se i) (s_rev (si s))) (lov s) (sov s) (txs s) (mode1 s) (dedup s).
+  St (rows s) (li s) (SIdx (p_se i) (s_rev (si s))) (lov s) (sov s) (txs s) (mode1 s) (dedup s) (lbad s) (sbad s).
 
 Definition rq_matches (q : qout) (r : rq) : bool :=
   N.eqb (q_err q) (rq_e r) && bool_decide (sort_rows (q_rows q) = rq_rows r) &&
@@ -158,14 +165,18 @@ Definition gets_spec (i : iid) (m : table) (vs : list Z) : list (Z * list N) :=
 
 (* (c) committed index content is exactly the committed table: nothing for deleted rows, nothing
    of uncommitted or aborted transactions; no delta outlives its transaction *)
+(* An index that itself answers ErrIndexInvalid (its populate scan failed; readers fall back to
+   scans) is not held to this: its content is never served. *)
 Definition index_exact (m : table) (p : probe) (nopen : nat) : bool :=
   let rs := sorted_rows m in
-  bool_decide (p_lr p = map (fun r => (rk r, ra r)) rs) &&
-  bool_decide (p_sr p = map (fun r => (rk r, rb r)) rs) &&
-  bool_decide (sort_ents (p_se p) = sort_ents (map (fun r => (rb r, rk r)) rs)) &&
-  bool_decide (p_lf p = List.filter (fun b => negb (Nat.eqb (length b.2) 0))
-                          (map (fun v => (v, keys_with IA v m))
-                               (isort Z.leb (remove_dups (map ra rs))))) &&
+  (p_lb p ||
+   bool_decide (p_lr p = map (fun r => (rk r, ra r)) rs) &&
+   bool_decide (p_lf p = List.filter (fun b => negb (Nat.eqb (length b.2) 0))
+                           (map (fun v => (v, keys_with IA v m))
+                                (isort Z.leb (remove_dups (map ra rs)))))) &&
+  (p_sb p ||
+   bool_decide (p_sr p = map (fun r => (rk r, rb r)) rs) &&
+   bool_decide (sort_ents (p_se p) = sort_ents (map (fun r => (rb r, rk r)) rs))) &&
   (p_ld p <=? nopen)%nat && (p_sd p <=? nopen)%nat.
 
 (* (b) after every operation: the committed table is the specification's; every open transaction
@@ -177,8 +188,8 @@ Definition probe_ok (s : sst) (av bv : list Z) (p : probe) : bool :=
   list_eqb (fun t (x : txp) =>
               Nat.eqb t (tp_t x) &&
               bool_decide (tp_rows x = sorted_rows (sp_view s t)) &&
-              bool_decide (tp_lg x = gets_spec IA (sp_view s t) av) &&
-              bool_decide (tp_sg x = gets_spec IB (sp_view s t) bv))
+              (p_lb p || bool_decide (tp_lg x = gets_spec IA (sp_view s t) av)) &&
+              (p_sb p || bool_decide (tp_sg x = gets_spec IB (sp_view s t) bv)))
            (sp_open_ids s) (p_txs p).
 
 Definition inrows (r : row) (l : list row) : bool := existsb (fun x => bool_decide (x = r)) l.
@@ -228,7 +239,8 @@ Definition query_ok (s : sst) (o : op) (i : iout) : bool :=
       else true
   | OQuery t desc cursor limit f =>
       (* ordered walks are claimed for committed state: readers without own pending writes *)
-      if sp_open s t && negb (has_writes s t) then
+      (* ... and for a sorted index that is usable (an invalid one is documented to walk as empty) *)
+      if sp_open s t && negb (has_writes s t) && negb (p_sb (io_p i)) then
         match io_qi i, io_qs i with
         | Some qi, Some qs =>
             let cand := sp_select s t (ord_holds desc cursor f) in
@@ -238,7 +250,8 @@ Definition query_ok (s : sst) (o : op) (i : iout) : bool :=
         end
       else true
   | Get t i' vs =>
-      if sp_open s t && nodupZ vs then
+      if sp_open s t && nodupZ vs &&
+         negb (match i' with IA => p_lb (io_p i) | IB => p_sb (io_p i) end) then
         match io_g i with
         | Some g => bool_decide (g = sort_keys (flat_map (fun v => keys_with i' v (sp_view s t)) vs))
         | None => false
